@@ -481,6 +481,9 @@ func (cc *Conn) acquireOutstandingInteraction(ctx context.Context) error {
 		return fmt.Errorf("invalid NStart value %v", nStart)
 	}
 	n := math.MaxInt64 - int64(cc.Transmission().nStart.Load()) + 1
+	// the wait for a free slot may be issued from a handler: the slot is given back when an acknowledgement is read,
+	// which needs the received messages in front of it to be taken from the queue
+	cc.receivedMessageReader.TryToReplaceLoop()
 	err := cc.numOutstandingInteraction.Acquire(ctx, n)
 	if err != nil {
 		return err
